@@ -428,6 +428,19 @@ def pred_tr(X, rank, mode, factors, sufficient, rel=None, ub_ok=True):
             return f"tensor_ring: ranks of consecutive factors do not match: {shp}"
         if shp[k][0] > req[k]:
             return f"tensor_ring: returned rank {shp[k][0]} exceeds the requested rank {req[k]} at bond {k} (start mode {mode})"
+    # transcription of C09_tensor_ring_realised: with everything rotated to the start mode, the first core has exactly the requested
+    # bonds and every later bond is min(previous bond * size, remaining size * first bond, request)
+    m_ = int(mode) % n
+    shp_r = [int(X.shape[(m_ + j) % n]) for j in range(n)]
+    req_r = [int(req[(m_ + j) % n]) for j in range(n)] + [int(req[m_])]
+    fr_ = list(factors[m_:]) + list(factors[:m_])
+    exp_b = [req_r[0], req_r[1]]
+    for k in range(1, n - 1):
+        exp_b.append(min(exp_b[-1] * shp_r[k], int(np.prod(shp_r[k + 1:])) * req_r[0], req_r[k + 1]))
+    got_b = [int(fr_[0].shape[0]), int(fr_[0].shape[2])] + [int(fr_[k].shape[2]) for k in range(1, n - 1)]
+    if got_b != exp_b:
+        return (f"tensor_ring: returned bonds {got_b} (rotated to start mode {mode}) are not min(previous bond * size, remaining size * first bond, "
+                f"request) = {exp_b} for shape {tuple(X.shape)}, request {req}")
     Xf = num(X)
     err = fro(Xf - tr_full(factors)); nx = fro(Xf)
     if not np.isfinite(err):
